@@ -17,7 +17,7 @@ use ec_core::{
         mutator::{Mutate, Mutator},
         recombinator::{Recombinator, Recombine},
         selector::{Select, Selector},
-        Operator,
+        DynOperator, Operator,
     },
 };
 use rand::{Rng, RngCore};
@@ -140,7 +140,9 @@ fn out_of(id: u32, input_fp: u64, word: u64) -> u64 {
 impl Probe<'_> {
     /// log, draw one word from the stream handed in, fail on command
     fn fire<R: Rng + ?Sized>(&self, input_fp: u64, rng: &mut R) -> Result<(u64, u64), PErr> {
-        let word = rng.next_u64();
+        // probes with an odd id ask for a 32-bit word, the others for a 64-bit word: the typed
+        // trace of the shared stream is part of what the model predicts
+        let word = if self.id % 2 == 1 { u64::from(rng.next_u32()) } else { rng.next_u64() };
         let mut log = self.sh.log.borrow_mut();
         let call = log.len();
         log.push(LogEntry { id: self.id, input_fp, word });
@@ -246,7 +248,7 @@ struct ModelCtx {
 fn eval(a: &Ast, input: Val, cx: &mut ModelCtx) -> Result<Val, Vec<String>> {
     match a {
         Ast::P(id) | Ast::Sel(id) => {
-            let word = cx.rng.next_u64();
+            let word = if id % 2 == 1 { u64::from(cx.rng.next_u32()) } else { cx.rng.next_u64() };
             let call = cx.log.len();
             let input_fp = input.fp();
             cx.log.push(LogEntry { id: *id, input_fp, word });
@@ -410,10 +412,41 @@ impl Input {
     }
 }
 
-fn finish<O: V, E: fmt::Debug>(r: Result<O, E>) -> Result<Val, Vec<String>> {
+/// The `Display` texts along the `source()` chain may be worded freely, but where a text names
+/// a part ("first" / "second") or an element number it must not contradict the error's structure.
+fn display_contradiction(e: &(dyn StdError + 'static), path: &[String]) -> Option<String> {
+    let mut cur: Option<&(dyn StdError + 'static)> = Some(e);
+    for tok in path {
+        let text = cur?.to_string();
+        let lower = text.to_lowercase();
+        let (has_first, has_second) = (lower.contains("first"), lower.contains("second"));
+        match tok.as_str() {
+            "first" if has_second && !has_first => return Some(text),
+            "second" if has_first && !has_second => return Some(text),
+            t if t.starts_with("map[") => {
+                let idx = t.trim_start_matches("map[").trim_end_matches(']');
+                let nums: Vec<&str> = text.split(|c: char| !c.is_ascii_digit()).filter(|x| !x.is_empty()).collect();
+                if !nums.is_empty() && !nums.contains(&idx) {
+                    return Some(text);
+                }
+            }
+            _ => {}
+        }
+        cur = cur?.source();
+    }
+    None
+}
+
+fn finish<O: V, E: StdError + fmt::Debug + 'static>(r: Result<O, E>) -> Result<Val, Vec<String>> {
     match r {
         Ok(o) => Ok(o.to_val()),
-        Err(e) => Err(error_path(&e)),
+        Err(e) => {
+            let mut path = error_path(&e);
+            if let Some(text) = display_contradiction(&e, &path) {
+                path.push(format!("message contradicts the error's structure: `{text}`"));
+            }
+            Err(path)
+        }
     }
 }
 
@@ -524,6 +557,44 @@ fn shapes() -> Vec<Shape> {
             let r1 = p(1);
             let op = Recombine::new(&r1).then(p(2));
             finish(op.apply(input.pair, rng))
+        }),
+    });
+    // type-erased parts inside a pipeline share the stream like any other part
+    v.push(Shape {
+        name: "(&dyn DynOperator p1).then(p2)",
+        input: InKind::U,
+        ast: then(P(1), P(2)),
+        run: Box::new(|sh, input, rng| {
+            let p = |id: u32| Probe { id, sh };
+            let p1 = p(1);
+            let d: &dyn DynOperator<u64, PErr, Output = u64> = &p1;
+            finish(d.then(p(2)).apply(input.u, rng))
+        }),
+    });
+    v.push(Shape {
+        name: "p2.then(&dyn DynOperator p1).and(p3)",
+        input: InKind::U,
+        ast: and(then(P(2), P(1)), P(3)),
+        run: Box::new(|sh, input, rng| {
+            let p = |id: u32| Probe { id, sh };
+            let p1 = p(1);
+            let d: &dyn DynOperator<u64, PErr, Output = u64> = &p1;
+            finish(p(2).then(d).and(p(3)).apply(input.u, rng))
+        }),
+    });
+    v.push(Shape {
+        name: "(&dyn DynOperator (p1.and(p3))).then_map(p5)",
+        input: InKind::U,
+        ast: then(and(P(1), P(3)), map(P(5))),
+        run: Box::new(|sh, input, rng| {
+            let p = |id: u32| Probe { id, sh };
+            let inner = p(1).and(p(3));
+            let d: &dyn DynOperator<u64, Box<dyn StdError + Send + Sync>, Output = (u64, u64)> = &inner;
+            match d.then_map(p(5)).apply(input.u, rng) {
+                Ok(o) => Ok(o.to_val()),
+                // (the erased layer boxes the inner error; its Debug form is the inner error's)
+                Err(e) => Err(error_path(&e)),
+            }
         }),
     });
     // selection needs a borrowed population as input: handled by the two
